@@ -82,6 +82,8 @@ type explorer struct {
 	deadline      time.Time
 	timedOut      bool
 	distinctSig   map[string]bool
+	abortReasons  map[string]int
+	violCount     map[string]int
 	fixed         map[string]uint64 // replay mode: every input variable is fixed
 	fixCh         []int
 	fixChAt       int
@@ -448,8 +450,15 @@ func (ex *explorer) runOne(prog *ssa.Program, fn *ssa.Function, prefix []decisio
 	case "abort":
 		if detail == "assertion failed" || detail == "assertion failed on all values" {
 			ex.completed++
+		} else if detail == "deadlock" {
+			ex.completed++
+			i.recordViolation("deadlock", "all threads are blocked: "+i.sched.describe(), token.NoPos)
 		} else {
 			ex.aborted++
+			if ex.abortReasons == nil {
+				ex.abortReasons = map[string]int{}
+			}
+			ex.abortReasons[detail]++
 		}
 	case "panic":
 		ex.completed++
@@ -466,7 +475,15 @@ func (ex *explorer) runOne(prog *ssa.Program, fn *ssa.Function, prefix []decisio
 	ex.asserts += ps.asserts
 	ex.discharged += ps.discharged
 	for _, v := range ps.violations {
-		if len(ex.violations) < 50 {
+		if ex.violCount == nil {
+			ex.violCount = map[string]int{}
+		}
+		key := v.Kind + "|" + v.Msg
+		if v.Kind == "deadlock" {
+			key = v.Kind
+		}
+		ex.violCount[key]++
+		if ex.violCount[key] <= 4 && len(ex.violations) < 60 {
 			ex.violations = append(ex.violations, v)
 		}
 	}
